@@ -155,6 +155,10 @@ pub fn variants(base: &Cfg) -> Vec<Cfg> {
                 ("exact", None, None),
                 ("nofree", Some(0xFFFF_FFFF), None),
                 ("toolarge", Some(g.clusters as u32 + 7), None),
+                // boundary values of a usable count: nothing free, everything free (stale, but a count), one too many
+                ("count-zero", Some(0), None),
+                ("count-eq-total", Some(g.clusters as u32), None),
+                ("count-total-plus-1", Some(g.clusters as u32 + 1), None),
                 ("hint-past-end", None, Some(last + 1)),
                 ("hint-far-past-end", None, Some(0x0FFF_FFF0)),
                 ("hint-reserved-1", None, Some(1)),
@@ -164,7 +168,7 @@ pub fn variants(base: &Cfg) -> Vec<Cfg> {
             vec![("", None, None)]
         };
         for (n, f, h) in frees {
-            if status >= 1 && n.starts_with("hint") {
+            if status >= 1 && (n.starts_with("hint") || n.starts_with("count-")) {
                 continue;
             }
             let mut img = img0.clone();
